@@ -67,6 +67,11 @@ var gsTargets = []gsTarget{
 	{"decode", "buffer", "decodeColor4"}, {"decode", "buffer", "decodeColor3Indirect"},
 	{"render", "Spread", "Clamp"},
 	{"generate", "", "Translate"}, {"generate", "", "MulAff3"},
+	{"render", "Renderer", "CSel"}, {"render", "Renderer", "NSel"}, {"render", "Renderer", "SetCSel"}, {"render", "Renderer", "SetNSel"},
+	{"render", "Renderer", "SetLOD"},
+	{"render", "Renderer", "absX"}, {"render", "Renderer", "absY"}, {"render", "Renderer", "relX"}, {"render", "Renderer", "relY"},
+	{"render", "Renderer", "unabsX"}, {"render", "Renderer", "unabsY"}, {"render", "Renderer", "absVec2"},
+	{"encode", "Encoder", "quantize"},
 }
 
 type gsFn struct {
@@ -79,6 +84,8 @@ type gsFn struct {
 	selfRec bool
 	text    string
 	err     string
+	fParams []string // f_<field> parameters (sorted), fields read or written through the receiver
+	fOut    []string // f_<field> results (sorted), fields written
 }
 
 type gsErr struct{ msg string }
@@ -95,6 +102,12 @@ type gsCtx struct {
 	named  []types.Object // named results
 	nres   int
 	fuel   string // current fuel variable when inside a self-recursive function
+	// a receiver of a struct type that is not modelled as a record (Renderer, Encoder): the fields the
+	// function reads become leading parameters f_<field>, the fields it assigns are returned first
+	fieldRecv types.Object
+	fRead     map[string]bool
+	fWritten  map[string]bool
+	fTypes    map[string]string
 }
 
 func gsLoad(repo string) map[string]*gsPkg {
@@ -255,6 +268,37 @@ func (c *gsCtx) zero(t types.Type) string {
 		return "[]"
 	}
 	gsFail("zero value of %s", t)
+	return ""
+}
+
+// the Coq type of a Go type
+func (c *gsCtx) coqType(t types.Type) string {
+	if _, ok := isFloat(t); ok {
+		return "Z"
+	}
+	if _, _, ok := intKind(t); ok {
+		return "Z"
+	}
+	if isBool(t) {
+		return "bool"
+	}
+	switch namedName(t) {
+	case "RGBA":
+		return "rgba"
+	case "Color":
+		return "gcolor"
+	case "ViewBox":
+		return "gviewbox"
+	}
+	switch u := t.Underlying().(type) {
+	case *types.Array:
+		return "(list " + c.coqType(u.Elem()) + ")"
+	case *types.Slice:
+		return "(list " + c.coqType(u.Elem()) + ")"
+	case *types.Pointer:
+		return c.coqType(u.Elem())
+	}
+	gsFail("type %s", t)
 	return ""
 }
 
@@ -426,6 +470,11 @@ func (c *gsCtx) expr(e ast.Expr) string {
 		return r
 	case *ast.SelectorExpr:
 		if sel, ok := info.Selections[v]; ok && sel.Kind() == types.FieldVal {
+			if id, ok := v.X.(*ast.Ident); ok && c.fieldRecv != nil && c.objOf(id) == c.fieldRecv {
+				c.fTypes[v.Sel.Name] = c.coqType(sel.Obj().Type()) // only fields of translatable types
+				c.fRead[v.Sel.Name] = true
+				return "f_" + v.Sel.Name
+			}
 			rt := sel.Recv()
 			if p, ok := rt.(*types.Pointer); ok {
 				rt = p.Elem()
@@ -717,6 +766,9 @@ func (c *gsCtx) call(v *ast.CallExpr) string {
 	case *ast.SelectorExpr:
 		if sel, ok := info.Selections[f]; ok && sel.Kind() == types.MethodVal {
 			fo := sel.Obj().(*types.Func)
+			if id, ok := f.X.(*ast.Ident); ok && c.fieldRecv != nil && c.objOf(id) == c.fieldRecv {
+				return c.callFunc(fo, "?recv", args)
+			}
 			return c.callFunc(fo, c.expr(f.X), args)
 		}
 		if fo, ok := info.Uses[f.Sel].(*types.Func); ok {
@@ -751,6 +803,20 @@ func (c *gsCtx) callFunc(fo *types.Func, recv string, args []string) string {
 	} else if g.selfRec {
 		parts = append(parts, "8%nat")
 	}
+	if g.decl != nil && g.decl.Recv != nil && !gsKnownRecv(g) {
+		// a method of the same unmodelled struct: its field parameters are fields of our receiver too
+		if c.fieldRecv == nil || recv != "?recv" {
+			gsFail("call of method %s outside its receiver", g.t.name)
+		}
+		if len(g.fOut) > 0 {
+			gsFail("call of %s, which assigns receiver fields", g.t.name)
+		}
+		for _, fp := range g.fParams {
+			c.fRead[strings.TrimPrefix(fp, "f_")] = true
+			parts = append(parts, fp)
+		}
+		recv = ""
+	}
 	if recv != "" {
 		parts = append(parts, recv)
 	}
@@ -768,6 +834,12 @@ type gsCont struct {
 func (c *gsCtx) ret(vals []string) string {
 	if c.recvB != nil && c.ptrRcv {
 		vals = append([]string{c.nameOf(c.recvB)}, vals...)
+	}
+	if len(c.fn.fOut) > 0 {
+		vals = append(append([]string{}, c.fn.fOut...), vals...)
+	}
+	if len(vals) == 0 {
+		return "tt"
 	}
 	if len(vals) == 1 {
 		return vals[0]
@@ -1010,6 +1082,14 @@ func (c *gsCtx) lhs(e ast.Expr) string {
 		if id, ok := v.X.(*ast.Ident); ok && c.objOf(id) == c.recvB && c.ptrRcv {
 			return c.nameOf(c.recvB)
 		}
+	case *ast.SelectorExpr:
+		if id, ok := v.X.(*ast.Ident); ok && c.fieldRecv != nil && c.objOf(id) == c.fieldRecv {
+			if sel, ok := c.info().Selections[v]; ok && sel.Kind() == types.FieldVal {
+				c.fTypes[v.Sel.Name] = c.coqType(sel.Obj().Type())
+				c.fWritten[v.Sel.Name] = true
+				return "f_" + v.Sel.Name
+			}
+		}
 	}
 	gsFail("assignment target %T", e)
 	return ""
@@ -1090,6 +1170,15 @@ func (c *gsCtx) assign(v *ast.AssignStmt) string {
 
 // ---- driver ----
 
+// receivers that are values of modelled types (records, the byte buffer, named integers)
+func gsKnownRecv(g *gsFn) bool {
+	switch g.t.recv {
+	case "", "buffer", "Color", "ViewBox", "Spread":
+		return true
+	}
+	return false
+}
+
 func (g *gsFn) translate(all map[string]*gsFn) {
 	defer func() {
 		if r := recover(); r != nil {
@@ -1110,17 +1199,22 @@ func (g *gsFn) translate(all map[string]*gsFn) {
 		if len(names) > 0 {
 			ro = info.Defs[names[0]]
 		}
-		if ptr {
-			if g.t.recv != "buffer" {
-				gsFail("pointer receiver of type %s", g.t.recv)
+		if !gsKnownRecv(g) {
+			c.fieldRecv = ro
+			c.fRead, c.fWritten, c.fTypes = map[string]bool{}, map[string]bool{}, map[string]string{}
+			if ro == nil {
+				c.fieldRecv = types.NewVar(token.NoPos, nil, "_", nil)
 			}
-			c.ptrRcv = true
-			c.recvB = ro
-		}
-		if ro != nil {
-			params = append(params, c.nameOf(ro))
 		} else {
-			params = append(params, "_")
+			if ptr {
+				c.ptrRcv = true
+				c.recvB = ro
+			}
+			if ro != nil {
+				params = append(params, "("+c.nameOf(ro)+" : "+c.coqType(ro.Type())+")")
+			} else {
+				params = append(params, "_")
+			}
 		}
 	}
 	for _, fl := range g.decl.Type.Params.List {
@@ -1128,7 +1222,7 @@ func (g *gsFn) translate(all map[string]*gsFn) {
 			gsFail("variadic parameter")
 		}
 		for _, n := range fl.Names {
-			params = append(params, c.nameOf(info.Defs[n]))
+			params = append(params, "("+c.nameOf(info.Defs[n])+" : "+c.coqType(info.Defs[n].Type())+")")
 		}
 	}
 	pre := ""
@@ -1149,6 +1243,41 @@ func (g *gsFn) translate(all map[string]*gsFn) {
 		}
 	}
 	body := pre + c.stmts(g.decl.Body.List, nil)
+	if c.fieldRecv != nil {
+		var fp, fo []string
+		for f := range c.fRead {
+			fp = append(fp, "f_"+f)
+		}
+		for f := range c.fWritten {
+			fo = append(fo, "f_"+f)
+			if !c.fRead[f] {
+				fp = append(fp, "f_"+f)
+			}
+		}
+		sort.Strings(fp)
+		sort.Strings(fo)
+		changed := strings.Join(fp, " ") != strings.Join(g.fParams, " ") || strings.Join(fo, " ") != strings.Join(g.fOut, " ")
+		g.fParams, g.fOut = fp, fo
+		if changed {
+			// the results depend on the set of assigned fields: translate again with the sets known
+			c2 := &gsCtx{fn: g, all: all, names: map[types.Object]string{}, used: map[string]bool{}, fuel: "fuel'"}
+			_ = c2
+			g.text = ""
+			g.translate(all)
+			return
+		}
+		typed := []string{}
+		for _, fp := range g.fParams {
+			ty, ok := c.fTypes[strings.TrimPrefix(fp, "f_")]
+			if !ok {
+				// read only through a callee: take the callee's word that it is translatable; Coq infers the type
+				typed = append(typed, fp)
+			} else {
+				typed = append(typed, "("+fp+" : "+ty+")")
+			}
+		}
+		params = append(typed, params...)
+	}
 	ps := ""
 	if len(params) > 0 {
 		ps = " " + strings.Join(params, " ")
